@@ -120,20 +120,27 @@ def run_scenario(sc, chooser=None, seed=0, max_steps=60000):
 
     box = {}
 
+    orig_pop = queues.Queue.pop
+
+    def pop_wrapper(self, till=None):
+        r = orig_pop(self, till=till)
+        if not sched.abort and isinstance(self, queues.ThreadedQueue):
+            sched.emit("m7", "popped", r)
+        return r
+    queues.ThreadedQueue.pop = pop_wrapper
+    orig_qinit = queues.Queue.__init__
+
+    def qinit(self, *a, **k):
+        orig_qinit(self, *a, **k)
+        if isinstance(self, queues.ThreadedQueue):
+            self.queue = TD()
+    queues.Queue.__init__ = qinit
+
     def main_body():
         threads.start_main_thread()
         tq = queues.ThreadedQueue("TQ", Sink(), batch_size=sc["batch"], max_size=sc["max_size"], period=sc["period"], silent=True)
         box["tq"] = tq
-        tq.queue = TD()
         sched.trace(tq.thread.please_stop, "WPS")
-        orig_pop = tq.pop
-
-        def pop_wrapper(till=None):
-            r = orig_pop(till=till)
-            if not sched.abort:
-                sched.emit("m7", "popped", r)
-            return r
-        tq.pop = pop_wrapper
         prods = []
         for pi, (vals, pauses) in enumerate(zip(sc["producers"], sc["pauses"])):
             def prod(please_stop, vals=vals, pauses=pauses):
@@ -165,6 +172,11 @@ def run_scenario(sc, chooser=None, seed=0, max_steps=60000):
         outcome = sched.run()
     finally:
         queues.Till = old_till
+        queues.Queue.__init__ = orig_qinit
+        try:
+            del queues.ThreadedQueue.pop
+        except Exception:
+            pass
         threads.Signal = old_tsignal
         ds.ShimThread.start = orig_shim_start
     lines = to_lines(sched.events, sc)
